@@ -136,6 +136,10 @@ func (g *sgen) name() string {
 		// the other quote character escaped, which the scanner accepts in either kind of literal
 		return `"` + pick(g.r, []string{`it\'s`, `o\'brien`, `a\'`, `\'x\'`}) + `"`
 	case x < 35:
+		if g.r.Intn(3) == 0 {
+			// every keyword, in any letter case, as a quoted name (the printer must quote it again)
+			return quoteName(randCase(g.r, pick(g.r, kwPool)))
+		}
 		return quoteName(pick(g.r, oddNames))
 	case x < 36:
 		return `""`
